@@ -301,8 +301,9 @@ do_case(int mask, int dt, int variants, const struct val_s *A, const struct val_
 		report(K_MINUS, mask, dt, expect_neg, 0, ord, A, B, fmt, txt, why);
 		bad++;
 	}
-	if ((A->sec > B->sec) != (A->rd > B->rd) && A->rd != B->rd && dt) {
-		/* time-of-day difference runs against the day difference: a borrow */
+	if (dt ? ((A->sec > B->sec) != (A->rd > B->rd) && A->rd != B->rd)
+	    : (A->rd != B->rd && (rc_get(A->rd)->d > rc_get(B->rd)->d) == (A->rd < B->rd))) {
+		/* time-of-day (dates: day-of-month) difference runs against the day difference: a borrow */
 		++*c_nontriv;
 	}
 	if (cls == 0) {
@@ -593,8 +594,8 @@ main(int argc, char *argv[])
 		"finest unit short (years+weeks chains are applied to the ISO week date operand, as ddiff counts them; only from day-of-month <= 28 / ISO week "
 		"<= 52); %d subsets the documentation declares inexpressible (month/year with a time unit but no %%d) are judged for sign and parseable output only; "
 		"sign: exactly one '-', in front, iff the second operand is earlier (not judged on all-zero output); for date-time pairs the ascending and a "
-		"rotated order and the %%0 and '%% ' paddings must print the same numbers. non-trivial = the time-of-day difference runs against the day "
-		"difference (borrow)", nfix, ncal, ninex);
+		"rotated order and the %%0 and '%% ' paddings must print the same numbers. non-trivial = the time-of-day difference (for dates: the day-of-month difference) "
+		"runs against the day difference (borrow)", nfix, ncal, ninex);
 	ex_meta("bound", "(a) %d boundary days x 7 times of day = %d date-times, all ordered pairs x 127 subsets x (1 + up to 8 order/padding variants); "
 		"(b) dates: every day of %s x partner at distance -%d..%d x 127 subsets; operands in y-m-d; "
 		"(c) binding: ddiff binary, one process per subset, %d date-times on stdin", nd, ni, ex.thorough ? "1997-2004 and 1897-1904" : "1997-2004", K, K, ni);
